@@ -358,8 +358,15 @@ def render_case(fx, c):
             ids.size.setdefault(ids.h(b["sha"]), b["size"])
         pre_ops.append(op_to_coq(ids, fx, op, before, o["state"]))
         before = o["state"]
+    # deleteUnusedLayers of a pull walks a Go map: the order in which blobs disappeared is an input of the model
+    removed = []
+    for a, b in zip(c.states, c.states[1:]):
+        nb = {x["name"] for x in b["blobs"]}
+        removed += [x["name"][7:] for x in a["blobs"] if x["name"] not in nb and re.match(r"^sha256-[0-9a-f]{64}$", x["name"])]
     grp = []
     for op, o in zip(c.group, c.ref_obs):
+        if op["op"] == "pull":
+            op["_ord"] = removed
         for b in o["state"]["blobs"]:
             ids.size.setdefault(ids.h(b["sha"]), b["size"])
         grp.append(op_to_coq(ids, fx, op, before, o["state"]))
@@ -386,37 +393,80 @@ def render_case(fx, c):
 
 # ----------------------------------------------------------------------------------------------- generator
 
-def gen_case(rng, fx, klass):
-    """a store-building history and the operation (group) to crash"""
-    pre = c04.gen_history(rng, fx, rng.randint(2, 7), "mixed")
-    pre = [o for o in pre if o["op"] != "startup" or rng.random() < 0.3]
-    used = [o["name"] for o in pre if o["op"] == "create"] + [o["dst"] for o in pre if o["op"] == "copy"]
-    up = [o["_fx"] for o in pre if o["op"] == "blob"]
+def gen_pre(rng, fx):
+    """a store with a few models that share layers: upload, create from files, create FROM it with overrides, copy,
+    then a short random tail"""
+    k = rng.choice(["g0", "g1", "gt", "g01"])
+    b = fx.data[k]
+    d = "sha256:" + sha(b)
+    n1 = c04.rnd_name(rng, [], 0)
+    pre = [{"op": "blob", "digest": d, "data": b.hex(), "_fx": k},
+           {"op": "create", "name": n1, "files": {"model.gguf": d}, "_fx": k}]
+    if rng.random() < 0.5:
+        pre[-1]["system"] = rng.choice(c04.SYSTEMS)
+    used = [n1]
+    for _ in range(rng.randint(0, 2)):
+        n2 = c04.rnd_name(rng, used, 0.2)
+        op = {"op": "create", "name": n2, "from": rng.choice(used)}
+        for kk, pool in (("system", c04.SYSTEMS), ("template", c04.TEMPLATES), ("parameters", c04.PARAMS)):
+            if rng.random() < 0.5:
+                op[kk] = rng.choice(pool)
+        pre.append(op)
+        used.append(n2)
+    if rng.random() < 0.5:
+        n3 = c04.rnd_name(rng, used, 0.1)
+        pre.append({"op": "copy", "src": rng.choice(used), "dst": n3})
+        used.append(n3)
+    tail = c04.gen_history(rng, fx, rng.randint(0, 3), "mixed")
+    pre += [o for o in tail if o["op"] not in ("startup", "delete") or rng.random() < 0.3]
+    return pre
+
+
+def recase(rng, name):
+    """a letter-case variant of a full name host/ns/model:tag"""
+    body, tag = name.rsplit(":", 1)
+    parts = [x.swapcase() if rng.random() < 0.4 else x for x in body.split("/")]
+    return "/".join(parts) + ":" + (tag.swapcase() if rng.random() < 0.3 else tag)
+
+
+def gen_group(rng, fx, klass, state):
+    """the operation (group) to crash, aimed at what the store really holds"""
+    stored = ["%s/%s/%s:%s" % tuple(m["path"].split("/")) for m in state["manifests"] if m["readable"]]
+
+    def existing():
+        if stored and rng.random() < 0.9:
+            n = rng.choice(stored)
+            return recase(rng, n) if rng.random() < 0.3 else n
+        return c04.rnd_name(rng, [], 0)
+
+    def target():
+        if stored and rng.random() < 0.45:
+            n = rng.choice(stored)
+            return recase(rng, n) if rng.random() < 0.5 else n
+        return c04.rnd_name(rng, [], 0)
     if klass == "delete":
-        group = [{"op": "delete", "name": c04.rnd_name(rng, used, 0.97)}]
-    elif klass == "copy":
-        group = [{"op": "copy", "src": c04.rnd_name(rng, used, 0.97), "dst": c04.rnd_name(rng, used, 0.5)}]
-    elif klass == "create-from":
-        op = {"op": "create", "name": c04.rnd_name(rng, used, 0.7), "from": c04.rnd_name(rng, used, 0.97)}
-        if rng.random() < 0.3:
+        return [{"op": "delete", "name": existing()}]
+    if klass == "copy":
+        return [{"op": "copy", "src": existing(), "dst": target()}]
+    if klass == "create-from":
+        op = {"op": "create", "name": target(), "from": existing()}
+        if rng.random() < 0.25:
             op["name"] = op["from"]
         for k, pool in (("system", c04.SYSTEMS), ("template", c04.TEMPLATES), ("parameters", c04.PARAMS), ("messages", c04.MESSAGES)):
             if rng.random() < 0.5:
                 op[k] = rng.choice(pool)
         if rng.random() < 0.2:
             op["license"] = rng.choice(c04.LICENSES)
-        group = [op]
-    elif klass == "create-files":
-        k = rng.choice(["g0", "g1", "gt", "gz", "g01", "ga"])
+        return [op]
+    if klass == "create-files":
+        k = rng.choice(["g0", "g1", "gt", "gz", "g01", "ga", "g0x"])
         b = fx.data[k]
-        op = {"op": "create", "name": c04.rnd_name(rng, used, 0.6), "files": {"model.gguf": "sha256:" + sha(b)}, "_fx": k}
+        op = {"op": "create", "name": target(), "files": {"model.gguf": "sha256:" + sha(b)}, "_fx": k}
         for kk, pool in (("system", c04.SYSTEMS), ("template", c04.TEMPLATES), ("parameters", c04.PARAMS)):
             if rng.random() < 0.5:
                 op[kk] = rng.choice(pool)
-        group = [{"op": "blob", "digest": "sha256:" + sha(b), "data": b.hex(), "_fx": k}, op]
-    else:
-        group = [c04.gen_pull(rng, fx, c04.rnd_name(rng, used, 0.5), small=True)]
-    return pre, group
+        return [{"op": "blob", "digest": "sha256:" + sha(b), "data": b.hex(), "_fx": k}, op]
+    return [c04.gen_pull(rng, fx, target(), small=True)]
 
 
 # ----------------------------------------------------------------------------------------------- driver
@@ -446,7 +496,13 @@ def run(ctx):
     for i in range(n):
         plan.append(classes[i % len(classes)])
     plan += ["pull"] * (3 if ctx.quick() else 40)
-    cases = [(k,) + gen_case(rng, fx, k) for k in plan]
+    pres = [gen_pre(rng, fx) for _ in plan]
+    pobs, err = c04.run_histories(ctx, binp, pres, noapi=True)
+    if pobs is None:
+        ctx.obligation("harness c04 answered every store-building history", False, err)
+        ctx.proof_failures.append({"obligation": "correspondence: harness c04 did not answer", "detail": err})
+        return
+    cases = [(k, pre, gen_group(rng, fx, k, ob[-1]["state"] if ob else EMPTY_STATE)) for k, pre, ob in zip(plan, pres, pobs)]
 
     def work(a):
         i, (k, pre, group) = a
